@@ -122,6 +122,28 @@ pub fn case(sink: &mut Sink, r: &mut Rng, v: &Value, class: &str) {
             Ok(Ok(b)) => format!("ok {}", hex(&b)),
         };
         sink.oracle(w == ans, "Json::to_writer does not write (or refuse) what Json::canonicalize answers", &replay);
+        // ... also into a destination that takes only a few bytes per `write` call and keeps taking them
+        // (a pipe, a socket, a chunking adaptor): every byte of the canonical text arrives
+        struct Few(Vec<u8>, usize);
+        impl std::io::Write for Few {
+            fn write(&mut self, d: &[u8]) -> std::io::Result<usize> {
+                let n = d.len().min(self.1);
+                self.0.extend_from_slice(&d[..n]);
+                Ok(n)
+            }
+            fn flush(&mut self) -> std::io::Result<()> {
+                Ok(())
+            }
+        }
+        for per_call in [1usize, 3] {
+            let v4 = v.clone();
+            let f = match guarded(move || { let mut few = Few(Vec::new(), per_call); Json::to_writer(&mut few, &v4).map(|_| few.0) }) {
+                Err(()) => "panic".to_string(),
+                Ok(Err(_)) => "err".to_string(),
+                Ok(Ok(b)) => format!("ok {}", hex(&b)),
+            };
+            sink.oracle(f == ans, "Json::to_writer into a destination that takes a few bytes per call does not deliver the canonical text", &replay);
+        }
         let v3 = v.clone();
         let p2 = match guarded(move || in_toto::interchange::JsonPretty::canonicalize(&v3)) {
             Err(()) => "panic".to_string(),
